@@ -279,6 +279,37 @@ pub struct SchemaGenConfig {
     pub emit_schema_runtime: bool,
 }
 
+impl SchemaGenConfig {
+    /// graphql.config.yaml text carrying exactly these options
+    pub fn to_config_yaml(&self) -> String {
+        use nitrogql_config_file::ScalarTypeConfig as C;
+        let q = |s: &str| serde_json::to_string(s).unwrap();
+        let mut y = String::from("schema: s.graphql\ndocuments: o.graphql\nextensions:\n  nitrogql:\n    generate:\n");
+        y.push_str(&format!("      emitSchemaRuntime: {}\n", self.emit_schema_runtime));
+        y.push_str("      type:\n");
+        y.push_str(&format!("        allowUndefinedAsOptionalInput: {}\n", self.allow_undefined_as_optional_input));
+        if !self.scalar_types.is_empty() {
+            y.push_str("        scalarTypes:\n");
+            let mut keys: Vec<&String> = self.scalar_types.keys().collect();
+            keys.sort();
+            for k in keys {
+                match &self.scalar_types[k] {
+                    C::Single(s) => y.push_str(&format!("          {k}: {}\n", q(s))),
+                    C::SendReceive(sr) => y.push_str(&format!("          {k}:\n            send: {}\n            receive: {}\n", q(&sr.send), q(&sr.receive))),
+                    C::Separate(c) => y.push_str(&format!(
+                        "          {k}:\n            resolverInput: {}\n            resolverOutput: {}\n            operationInput: {}\n            operationOutput: {}\n",
+                        q(&c.resolver_input),
+                        q(&c.resolver_output),
+                        q(&c.operation_input),
+                        q(&c.operation_output)
+                    )),
+                }
+            }
+        }
+        y
+    }
+}
+
 impl Default for SchemaGenConfig {
     fn default() -> Self {
         SchemaGenConfig { scalar_types: HashMap::new(), allow_undefined_as_optional_input: true, emit_schema_runtime: false }
@@ -293,11 +324,13 @@ pub fn gen_schema_dts(
     file_index_mapper: Option<Vec<usize>>,
     detail: &Value,
 ) -> Result<Result<SourceWriterBuffers, String>, Failure> {
+    // the options are built the way the CLI builds them: configuration text -> parse_config ->
+    // SchemaTypePrinterOptions::from_config (so that the merge of configured scalar types with the
+    // built-in ones is the code under test, not a copy of it)
+    let yaml = cfg.to_config_yaml();
+    let config = nitrogql_config_file::parse_config(&yaml).ok_or_else(|| Failure::new("harness:config", format!("harness configuration rejected: {yaml}"), detail.clone()))?;
     guard(|| {
-        let mut options = SchemaTypePrinterOptions::default();
-        options.emit_schema_runtime = cfg.emit_schema_runtime;
-        options.input_nullable_field_is_optional = cfg.allow_undefined_as_optional_input;
-        options.scalar_types.extend(cfg.scalar_types.iter().map(|(k, v)| (k.clone(), v.clone())));
+        let options = SchemaTypePrinterOptions::from_config(&config);
         let mut writer = SourceWriter::new();
         if let Some(m) = file_index_mapper {
             writer.set_file_index_mapper(m);
